@@ -367,3 +367,68 @@ Check C16_source_tables :
   agrees src_ErrorCode_Ok OffReader.EC_OK /\ agrees src_ErrorCode_ResourceExhausted OffReader.EC_RESOURCE_EXHAUSTED /\
   agrees src_ErrorCode_InternalError OffReader.EC_INTERNAL_ERROR.
 Print Assumptions C16_source_tables.
+
+(** ** the admission decision is the one re-translated from the Rust source on this run (bin/rs2v,
+    sinks-and-sessions mode: Gen/OffReaderGen.v, Proofs/OffReaderGenAgree.v): the synchronous part
+    of spawn_off_reader, up to the call of tokio::task::spawn_blocking (the closure it starts -- the
+    handler run, the panic guard, the queued response, the release of the permit -- is not
+    translated; the correspondence run carries that part).  [held] permits of the semaphore
+    ([sem] = [Some cap], or [None] when there is none) are out, [reports] is what the error hooks
+    were handed, [outbox] the outbound channel, [spawned] the blocking tasks started; the value is
+    the reader's keep-reading flag.  The rejection is built by the rendering of
+    create_error_response_like (Gen/ErrMsgGen.v, tied to the model's [build] by
+    C17_source_translation_messages); the premise excludes a query so long that the frame length
+    would not fit 64 bits. *)
+From RepeV Require Import Base.GenOutboundPrelude Gen.ErrMsgGen Gen.OffReaderGen Proofs.OffReaderGenAgree.
+
+Theorem C16_source_translation :
+  match gen_spawn_off_reader with
+  | Some f => forall reports held outbox spawned sem request notify,
+      HEADER_SIZE + lenN (m_query request) + lenN saturated_text < two64 ->
+      f reports held outbox spawned sem request notify =
+      if saturated (mkSt held sem []) then
+        if notify then Ok (true, reports ++ [R_Saturation], held, outbox, spawned)
+        else Ok (res_is_ok (fst (oc_send outbox (rejection request))), reports ++ [R_Saturation], held,
+                 snd (oc_send outbox (rejection request)), spawned)
+      else Ok (true, reports, match sem with Some _ => held + 1 | None => held end, outbox, spawned + 1)
+  | None => True
+  end.
+Proof. exact c16_source_translation. Qed.
+
+Theorem C16_source_translation_model :
+  (forall nmw s r, execution (dispatched nmw (r_route r)) = OffReader ->
+     emit nmw s (Arrive r) = (if saturated s then if r_notify r then [] else [(r_id r, EC_RESOURCE_EXHAUSTED)] else []) /\
+     next_running nmw s (Arrive r) = (if saturated s then running s else running s + 1)) /\
+  (forall request, reply_of (rejection request) = (h_id (m_hdr request), EC_RESOURCE_EXHAUSTED)) /\
+  (forall c m, oc_left c = None -> oc_send c m = (ROk tt, mkOut (oc_sent c ++ [m]) None)).
+Proof. exact c16_source_translation_model. Qed.
+
+Check C16_source_translation :
+  match gen_spawn_off_reader with
+  | Some f => forall reports held outbox spawned sem request notify,
+      HEADER_SIZE + lenN (m_query request) + lenN saturated_text < two64 ->
+      f reports held outbox spawned sem request notify =
+      if saturated (mkSt held sem []) then
+        if notify then Ok (true, reports ++ [R_Saturation], held, outbox, spawned)
+        else Ok (res_is_ok (fst (oc_send outbox (rejection request))), reports ++ [R_Saturation], held,
+                 snd (oc_send outbox (rejection request)), spawned)
+      else Ok (true, reports, match sem with Some _ => held + 1 | None => held end, outbox, spawned + 1)
+  | None => True
+  end.
+Check C16_source_translation_model :
+  (forall nmw s r, execution (dispatched nmw (r_route r)) = OffReader ->
+     emit nmw s (Arrive r) = (if saturated s then if r_notify r then [] else [(r_id r, EC_RESOURCE_EXHAUSTED)] else []) /\
+     next_running nmw s (Arrive r) = (if saturated s then running s else running s + 1)) /\
+  (forall request, reply_of (rejection request) = (h_id (m_hdr request), EC_RESOURCE_EXHAUSTED)) /\
+  (forall c m, oc_left c = None -> oc_send c m = (ROk tt, mkOut (oc_sent c ++ [m]) None)).
+
+(** the definitions used above are the plain ones *)
+Check (eq_refl : rejection = fun request => error_response_like request ERRC_ResourceExhausted saturated_text).
+Check (eq_refl : saturated_text = [111; 102; 102; 45; 114; 101; 97; 100; 101; 114; 32; 100; 105; 115; 112; 97; 116; 99; 104; 32; 108; 105; 109; 105; 116; 32;
+   114; 101; 97; 99; 104; 101; 100; 59; 32; 114; 101; 116; 114; 121]%N).
+Check (eq_refl : reply_of = fun m => (h_id (m_hdr m), h_ec (m_hdr m))).
+Check (eq_refl : ERRC_ResourceExhausted = EC_RESOURCE_EXHAUSTED).
+Check (eq_refl : sem_try_acquire = fun held cap => if (held <? cap)%N then (ROk tt, (held + 1)%N) else (RErr tt, held)).
+
+Print Assumptions C16_source_translation.
+Print Assumptions C16_source_translation_model.
